@@ -101,9 +101,10 @@ Proof. exact pg_ident_cases. Qed.
     references each statement form writes, through which call; fragment listed in
     Qual/RefSkeleton.v).  That [plan_skel] agrees with the Go planners is the tie (stage
     [skel]: identical reference chains, statement by statement, on every generated change
-    set), not a proof; ModifyColumn / ModifyIndex / ModifyForeignKey / ModifyCheck /
-    primary-key changes and the schema-level statements are covered by the oracle stage
-    [plan] only.  With the C16 repairs (RenameObject through enumIdent, schemaPrefix for every
+    set), not a proof; the fragment now includes ModifyColumn (enum types, int -> serial with
+    its CREATE/DROP SEQUENCE statements), ModifyIndex, ModifyForeignKey, ModifyCheck and
+    primary-key changes; serial -> other, generated / identity columns and the schema-level
+    statements are covered by the oracle stage [plan] only.  With the C16 repairs (RenameObject through enumIdent, schemaPrefix for every
     DROP INDEX) no statement form is excluded any more; [reference r] leaves out only the NEW
     name of ALTER TYPE ... RENAME TO, which is a definition and bare by SQL syntax. *)
 Theorem C16_skeleton_partial :
@@ -263,4 +264,17 @@ Example ex_skeleton_repaired :
     [ (false, h_alter_type, [[q_; e1]; [e2]]); (true, h_alter_type, [[q_; e2]; [e1]]);
       (false, h_create_table, [[q_; t_]]); (true, h_drop_table, [[q_; t_]]);
       (false, h_create_index, [[q_; t_]]); (true, h_drop_index, [[q_; ii]]) ].
+Proof. vm_compute. reflexivity. Qed.
+
+(* the extended fragment: type change to an enum, int -> serial (sequence statements), a
+   foreign key moved to another table *)
+Example ex_skeleton_modify :
+  let t := mkTab (mkObj (Some m_) t_) [] [] [] false in
+  plan_chains true (Some []) [RefSkeleton.ModifyTable t
+     [ModifyColumn c_ None (Some (Some m_, e1)) true false false true;
+      ModifyColumn ii None None true true false false;
+      ModifyForeignKey (mkFk [c_] (mkObj (Some m_) [117])) (mkFk [c_] (mkObj (Some m_) [118]))]] =
+    [ (false, h_create_sequence, [[seq_name t_ ii]; [t_; ii]]); (true, h_drop_sequence, [[seq_name t_ ii]]);
+      (false, h_alter_table, [[t_]; [e1]; [[118]]]); (true, h_alter_table, [[t_]; [[117]]]);
+      (false, h_comment_on, [[t_; c_]]); (true, h_comment_on, [[t_; c_]]) ].
 Proof. vm_compute. reflexivity. Qed.
